@@ -36,8 +36,14 @@ func c07Placements() []string {
 func blockRoots(v []harness.Visit) int {
 	n := 0
 	for _, x := range v {
-		if strings.HasPrefix(x.Node, "map{v") || strings.HasPrefix(x.Node, "b:raw-leaf") {
+		if strings.HasPrefix(x.Node, "b:raw-leaf") {
 			n++
+		} else if strings.HasPrefix(x.Node, "map{") {
+			for _, k := range strings.Split(strings.TrimSuffix(x.Node[4:], "}"), ",") {
+				if k == "v" { // every block root of the harness DAGs carries field "v"
+					n++
+				}
+			}
 		}
 	}
 	return n
@@ -182,7 +188,7 @@ func c07RunK(cs c07Case, n, k int) (sig, what string) {
 	if !closed {
 		return "channels-not-closed", detail
 	}
-	if cs.Needed <= int(cs.Budget) {
+	if uint64(cs.Needed) <= cs.Budget {
 		// the budget must not cause a failure
 		if len(errs) > 0 || loaded != cs.Needed {
 			return "budget-sufficient-but-request-failed" + b1, detail
@@ -191,10 +197,10 @@ func c07RunK(cs c07Case, n, k int) (sig, what string) {
 	}
 	// needs more than the budget: exactly N blocks then a budget-exceeded failure
 	if onReq {
-		if loaded > int(cs.Budget) {
+		if uint64(loaded) > cs.Budget {
 			return "requestor-loaded-more-than-budget", detail
 		}
-		if loaded < int(cs.Budget) {
+		if uint64(loaded) < cs.Budget {
 			return "requestor-stopped-before-budget" + b1, detail
 		}
 		if len(budgetErrs) == 0 {
@@ -206,10 +212,10 @@ func c07RunK(cs c07Case, n, k int) (sig, what string) {
 		// requestor holds everything: nothing is asked of the responder
 		return "", ""
 	}
-	if mdCount > int(cs.Budget) {
+	if uint64(mdCount) > cs.Budget {
 		return "responder-loaded-more-than-budget", detail
 	}
-	if mdCount < int(cs.Budget) {
+	if uint64(mdCount) < cs.Budget {
 		return "responder-stopped-before-budget" + b1, detail
 	}
 	if finalStatus.IsSuccess() || !finalStatus.IsTerminal() || len(otherErrs) == 0 {
@@ -239,6 +245,40 @@ func runC07(c *core.Ctx) {
 	}
 	sels := []string{"all-d10", "all-d2", "field-e0-then-all"}
 	var idx int64
+	// (b) budgets are counted in blocks: wide blocks (thousands of nodes, no extra links) and huge budgets
+	wide := harness.Shape{Name: "wide2", Blocks: []harness.BlockSpec{{Pad: 2100, Edges: []harness.Edge{{To: 1}}}, {Pad: 1100}}}
+	chain3 := harness.Shape{Name: "chain3", Blocks: []harness.BlockSpec{{Edges: []harness.Edge{{To: 1}}}, {Edges: []harness.Edge{{To: 2, Form: harness.Inline}}}, {}}}
+	for _, place := range c07Placements() {
+		var extra []c07Case
+		for _, b := range []uint64{1, 2, 3} {
+			extra = append(extra, c07Case{Shape: wide, Sel: "all-d10", Place: place, Budget: b, Needed: 2, Variant: "wide-blocks"})
+		}
+		for _, b := range []uint64{1 << 31, 1 << 53, 1 << 62, 1<<63 + 5, ^uint64(0)} {
+			extra = append(extra, c07Case{Shape: chain3, Sel: "all-d10", Place: place, Budget: b, Needed: 3, Variant: "huge-budget"})
+		}
+		for _, cs := range extra {
+			idx++
+			if !c.Mine(idx) {
+				continue
+			}
+			if strings.Contains(place, "<") {
+				cs.Other = cs.Budget + 2
+				if cs.Other < cs.Budget {
+					cs.Other = ^uint64(0)
+					cs.Budget -= 2
+				}
+			}
+			sig, what := c07Run(cs)
+			c.Res.Evaluations++
+			c.Class(fmt.Sprintf("%s %s", place, cs.Variant))
+			if sig != "" {
+				if len(what) > 600 {
+					what = what[:600] + "…"
+				}
+				c.Violate(sig+"/"+cs.Variant, what, cs)
+			}
+		}
+	}
 	for _, sh := range shapes {
 		d := harness.Build(sh, "")
 		for _, sn := range sels {
